@@ -246,7 +246,7 @@ def execute(ctx):
     air.outcome = outcome
 
     verdict = sim.run(scenario)
-    if verdict[0] in ('deadlock', 'timeout'):
+    if verdict[0] in ('deadlock', 'timeout', 'livelock'):
         from simkit.harness import hang_signature
         sg, msg = hang_signature(verdict)
         ctx.violation('6', sg, msg, verdict[1])
